@@ -152,6 +152,17 @@ def check_move(case):
         out = lib("move", gaddlemaps.move_mol_atom, pos, tab, atom, displ)
     if out is pos:
         raise PropertyViolation("input-unchanged", "move_mol_atom returned the caller's own array object")
+    if n > 1 and (atom + n) % 4 == 0:
+        # the atom left to its default (the library picks one at random) and the displacement given: SOME atom is moved
+        # by exactly that vector
+        st_ = np.random.get_state()
+        rnd = np.asarray(lib("move-any-atom", lambda: gaddlemaps.move_mol_atom(pos, tab, displ=displ)), float)
+        np.random.set_state(st_)
+        gap = np.abs((rnd - before) - displ[None, :]).max(axis=1)
+        if not gap.min() <= 1e-12 * max(1.0, np.abs(before).max(), np.abs(displ).max()):
+            raise PropertyViolation("exact-displacement", "move_mol_atom(pos, bonds, displ=d) with the atom left to its "
+                                    "default: no atom is displaced by d (closest misses it by %.3e)" % gap.min(),
+                                    cls="exact-displacement:default-atom")
     out = np.asarray(out, float)
     if not np.array_equal(pos, before) or not np.array_equal(displ, displ_before):
         raise PropertyViolation("input-unchanged", "move_mol_atom modified its input array or displacement")
